@@ -61,6 +61,9 @@ ANALYZERS = {
     "standard": lambda: analysis.StandardAnalyzer(),
     "standard_nostop": lambda: analysis.StandardAnalyzer(stoplist=None, minsize=1),
     "stemming": lambda: analysis.StemmingAnalyzer(),
+    # words that must not be stemmed, at index time and - after the analyzer went through the index's pickled schema -
+    # at query time alike
+    "stemming_ignore": lambda: analysis.StemmingAnalyzer(ignore=frozenset([u"worlds", u"running", u"rendering", u"shading"])),
     "fancy": lambda: analysis.FancyAnalyzer(),
     "keyword": lambda: analysis.KeywordAnalyzer(),
     "keyword_commas": lambda: analysis.KeywordAnalyzer(lowercase=True, commas=True),
@@ -105,7 +108,7 @@ for _lang in languages:
     ANALYZERS["lang_" + _lang] = (lambda l=_lang: analysis.LanguageAnalyzer(l))
 
 # analyzers whose tokens are contiguous slices of the source text (offset clause applies)
-SLICING = {"simple", "standard", "standard_nostop", "stemming", "fancy", "keyword", "keyword_commas", "id", "id_lower",
+SLICING = {"simple", "standard", "standard_nostop", "stemming", "stemming_ignore", "fancy", "keyword", "keyword_commas", "id", "id_lower",
            "regex", "regex_gaps", "space", "charset", "strip", "comma", "charset_tok", "url", "stop_norenumber"} | set("lang_" + l for l in languages)
 NGRAMS = {"ngram", "ngramwords", "ngramwords_start", "ngramwords_end", "ngram_wide", "field"}
 # slicing analyzers without a stemmer / morphological filter
@@ -122,7 +125,7 @@ def strategy(tier):
         # every analyzer, with extra weight on the ones whose index- and query-time chains differ or that synthesise tokens
         "analyzer": st.one_of(st.sampled_from(sorted(ANALYZERS)), st.sampled_from(sorted(ANALYZERS)),
                               st.sampled_from(["intraword_multi", "intraword_multi", "intraword_merge", "fancy", "ngramwords",
-                                               "charset", "stemming", "delimited_folded", "delimited"])),
+                                               "charset", "stemming", "stemming_ignore", "stemming_ignore", "delimited_folded", "delimited"])),
         "ftype": st.sampled_from(["text", "text", "text", "text_chars", "text_chars", "keyword", "id", "ngram_field",
                                   "ngramwords_field"]),
         "fragmenter": st.sampled_from(["context", "sentence", "whole", "pinpoint"]),
@@ -228,7 +231,15 @@ def run(case, out):
     other_word = all_terms[3] if len(all_terms) > 3 else None
     if other_word is not None:
         w.add_document(k=other_word, f=u"zzqw tagged")
+    # a later document that shares the target's first word, at another character offset: what is highlighted in the
+    # target must come from the target's own offsets
+    first = next((t for t in itoks if t[2] is not None and t[3] is not None and t[0]), None)
+    if first is not None and ftype in ("text", "text_chars"):
+        w.add_document(k=u"sibling", f=u"zzqv zzqu zzqt " + text[first[2]:first[3]])
     w.commit()
+    # query-time analysis as a later process does it: with the schema unpickled from the index's table of contents
+    ix = ix.storage.open_index()
+    schema = ix.schema
     positional = ftype in ("text", "text_chars")
     with ix.searcher() as s:
         def finds(q):
@@ -381,7 +392,7 @@ def run(case, out):
                             out.fail("c17.offsets_wider_than_token:%s" % name,
                                      {"text": text, "token": t, "slice": src, "droppable_end": side, "offsets": [sc, ec]})
                             return
-                elif name == "stemming" or name.startswith("lang_"):
+                elif name in ("stemming", "stemming_ignore") or name.startswith("lang_"):
                     # stemmers map shorter words to the same stem (fi: "BB" and "B" -> "b"), so droppability proves
                     # nothing there: the slice must just begin and end with a word character
                     if not (re.match(r"\w", src[0], re.U) and re.match(r"\w", src[-1], re.U)):
